@@ -112,6 +112,8 @@ def run(ctx):
             strings.append(ctext(rnd.choice(compounds))[:rnd.randint(1, 12)])
         else:
             strings.append("".join(rnd.choice(alphabet) for _ in range(rnd.randint(0, 7))))
+    # blanks between the letters of "mu" / around micro signs: the clean-up removes blanks FIRST
+    strings += ["m uV", "m  us", "N*m us", " m u ", "m \u00b5V", "\u00b5 V", "m u m u", "k m uV", "mu V", "m\tuV"]
     spairs = []
     for _ in range(5000 if thorough else 800):
         a = rnd.choice(strings)
@@ -207,8 +209,13 @@ def run(ctx):
     kf_domains = set(e.get("match") for e in kf)
     new_fail = []
     kf_hit = {}
+    def cleaned(x):
+        # the clean-up as the property describes it: blanks removed, then "mu" and the two micro signs mapped to "u"
+        return x.replace(" ", "").replace("mu", "u").replace("\u00b5", "u").replace("\u03bc", "u")
     for name, inp, r in failures:
-        if name == "strings" and "sanitizer_mu" in kf_domains and "mu" in r[4]:
+        # the recorded finding: texts whose CLEANED form (by the clean-up as specified, not by what the implementation
+        # returned) contains "mu" again, e.g. "mmu" -> "mu"
+        if name == "strings" and "sanitizer_mu" in kf_domains and isinstance(inp, str) and "mu" in cleaned(inp):
             kf_hit.setdefault("sanitizer_mu", inp)
             continue
         new_fail.append((name, inp, r))
